@@ -58,7 +58,7 @@ var props = map[string]propCfg{
 	"C01": {Level: "exploration", QuickRuns: 4000, QuickBud: 22 * time.Second, ThorRuns: 200000, ThorBud: 10 * time.Minute,
 		Required: []string{"callback_raced_completion", "callback_success", "storage_err", "request_deleted", "restart"}},
 	"C09": {Level: "exploration", QuickRuns: 4000, QuickBud: 22 * time.Second, ThorRuns: 200000, ThorBud: 10 * time.Minute,
-		Rule:     "stage 1 sweeps completely every single structural edit (delete / duplicate / empty each element, delete / empty / duplicate each attribute) of 7 base messages (AuthnRequest redirect / POST signed / redirect signed, LogoutRequest POST / redirect, AttributeQuery unsigned / signed incl. the SOAP envelope) and of the stored metadata of 2 SPs; stage 2 draws random worlds with corrupted SP metadata, deviating / tampered / raw / torn requests (up to 3 edits per message) under storage faults. Non-trivial: at least one fault or edit fired or two tasks interleaved; distinct by (schedule × outcome) hash",
+		Rule:     "stage 1 sweeps completely every single structural edit (delete / duplicate / empty each element, delete / empty / duplicate each attribute) of 7 base messages (AuthnRequest redirect / POST signed / redirect signed, LogoutRequest POST / redirect, AttributeQuery unsigned / signed incl. the SOAP envelope) and of the stored metadata of 2 SPs (thorough tier: also every ordered pair of single edits of every base message); stage 2 draws random worlds with corrupted SP metadata, deviating / tampered / raw / torn requests (up to 3 edits per message) under storage faults. Non-trivial: at least one fault or edit fired or two tasks interleaved; distinct by (schedule × outcome) hash",
 		Required: []string{"handler_ran", "sp_metadata_corrupt", "tamper_dropElem", "tamper_dropAttr", "tamper_swap_sigalg", "body_eof_at", "storage_err"}},
 	"C10": {Level: "fault_enumeration", QuickRuns: 4000, QuickBud: 25 * time.Second, ThorRuns: 200000, ThorBud: 10 * time.Minute,
 		Rule:     "stage 1 enumerates completely: 4 provider configurations × 12 workloads × {no bystander, callback bystander, metadata bystander, warm-up by an earlier callback, warm-up by an earlier metadata request} × every storage call of the workload's trace × every fault kind the property names for that operation, singly and in all pairs (second fault anywhere in the trace as it unfolds after the first); stage 2 draws random fault schedules over random worlds with pgregory.net/rapid. A case is non-trivial when at least one fault fired or at least two tasks were interleaved; distinct = distinct (schedule signature × outcome signature), counted by hash",
@@ -120,6 +120,7 @@ type workerOut struct {
 	WallS      float64           `json:"wall_s"`
 	Exhaustive bool              `json:"exhaustive"`
 	Enumerated int               `json:"enumerated"`
+	Pairs      int               `json:"pairs"`
 }
 
 func die(code int, f string, a ...any) {
@@ -321,6 +322,7 @@ func main() {
 		total.Tasks += o.Tasks
 		total.RunsFlow += o.RunsFlow
 		total.Enumerated += o.Enumerated
+		total.Pairs += o.Pairs
 		if !o.Exhaustive {
 			exhaustive = false
 		}
@@ -468,6 +470,7 @@ func main() {
 		"required_probes_missing":    missing,
 		"exhaustive":                 exhaustive && total.Enumerated > 0,
 		"enumerated_fault_scenarios": total.Enumerated,
+		"enumerated_edit_pairs":      total.Pairs,
 	}
 	if len(realIDs) > 0 {
 		cov["real_randomness_id_stage"] = realIDs
